@@ -161,6 +161,9 @@ func symbols() *sl.Symbols {
 		// keeps apart: capital / small / final sigma.  Point 3 moves between them.
 		sl.Op{Name: "upd3(si: ΟΔΟΣ)", Kind: "upd", Ids: []int{3}, Docs: []sl.Doc{{"si": "ΟΔΟΣ", "tagsi": []string{"ΟΔΟΣ"}}}},
 		sl.Op{Name: "upd3(si: οδος)", Kind: "upd", Ids: []int{3}, Docs: []sl.Doc{{"si": "οδος", "tagsi": []string{"οδος"}}}},
+		// arrays of equal length whose elements, written one after the other with spaces, read the same
+		sl.Op{Name: "upd3(tags: [red car, blue])", Kind: "upd", Ids: []int{3}, Docs: []sl.Doc{{"tags": []string{"red car", "blue"}, "tagsi": []string{"red car", "blue"}}}},
+		sl.Op{Name: "upd3(tags: [red, car blue])", Kind: "upd", Ids: []int{3}, Docs: []sl.Doc{{"tags": []string{"red", "car blue"}, "tagsi": []string{"red", "car blue"}}}},
 		sl.Op{Name: "del1", Kind: "del", Ids: []int{1}},
 		sl.Op{Name: "del1,2", Kind: "del", Ids: []int{1, 2}},
 		sl.Op{Name: "ins1(empty strings)", Kind: "ins", Ids: []int{1}, Docs: []sl.Doc{{"s": "", "si": "", "tags": []string{""}, "a": int64(0)}}},
@@ -174,6 +177,7 @@ func batteryB() []models.Query {
 	qs = append(qs, sl.StringLeaves("si", sv)...)
 	qs = append(qs, sl.StringLeaves("si", []string{"ΟΔΟΣ", "οδος", "οδοσ"})...)
 	qs = append(qs, sl.ArrayLeaves("tagsi", []string{"ΟΔΟΣ", "οδος"})...)
+	qs = append(qs, sl.ArrayLeaves("tags", []string{"red", "red car", "car blue", "blue"})...)
 	qs = append(qs, sl.StringLeaves("n.s", []string{"ab", "B"})...)
 	qs = append(qs, sl.IntLeaves("a", []int64{-1, 0, 1})...)
 	qs = append(qs, sl.IntLeaves("n.x", []int64{0, 1, 7})...)
@@ -233,7 +237,7 @@ func master(cfg *harness.Config, rep *harness.Report) {
 	if !cfg.Quick() {
 		depth = 8
 	}
-	hist := []string{"ins1(v0)", "ins2(v0)", "ins3(v1)", "upd1(v1)", "upd1,2(v2)", "upd1(v1),3(v0) swap", "upd1(remove)", "upd1(add v0)", "upd2(n:{x})", "upd1(tags -> duplicates, same length)", "upd2(tags reordered)", "upd3(si: ΟΔΟΣ)", "upd3(si: οδος)", "del1", "del1,2", "ins1(empty strings)"}
+	hist := []string{"ins1(v0)", "ins2(v0)", "ins3(v1)", "upd1(v1)", "upd1,2(v2)", "upd1(v1),3(v0) swap", "upd1(remove)", "upd1(add v0)", "upd2(n:{x})", "upd1(tags -> duplicates, same length)", "upd2(tags reordered)", "upd3(si: ΟΔΟΣ)", "upd3(si: οδος)", "upd3(tags: [red car, blue])", "upd3(tags: [red, car blue])", "del1", "del1,2", "ins1(empty strings)"}
 	var specs []seqx.Spec
 	for _, be := range []string{"bbolt", "mem"} {
 		specs = append(specs,
